@@ -495,6 +495,12 @@ theorem C19_restore_bad_file_name (sys : System) (fs : FS) (n : String)
 example : stripNpy "2018-13.npy".toList = some "2018-13".toList ∧
     parsePeriod "2018-13".toList = .error "period" := by decide +kernel
 
+/-- a back-up of a dumped file made inside the dump, `2018-01.copy.npy`: what precedes the `.npy` suffix is cut at
+    the LAST dot, and `2018-01.copy` is not a period — the restore raises rather than read the back-up as `2018-01` -/
+example : stripNpy "2018-01.copy.npy".toList = some "2018-01.copy".toList ∧
+    parsePeriod "2018-01.copy".toList = .error "period" ∧ parsePeriod "2018.01".toList = .error "period" := by
+  decide +kernel
+
 /-- A file whose period does not have the variable's definition unit makes
     `restore_simulation` raise (`PeriodMismatchError` of `Holder._set`): the step of the loop
     of `_restore_holder`, for every directory and file table. -/
